@@ -222,6 +222,11 @@ func (c *syntaxLoader) collectInputs(p ast.ParserSection, header status.SourceNo
 					c.Errorf(name, "input nonterminals cannot have an 'inline' property")
 				}
 				_, noeoi := ref.NoEoi()
+				if slices.ContainsFunc(c.out.Inputs, func(inp syntax.Input) bool { return inp.Nonterm == nonterm }) {
+					// Note: the generated entry points are named after nonterminals.
+					c.Errorf(name, "duplicate input nonterminal '%v'", name.Text())
+					continue
+				}
 				c.out.Inputs = append(c.out.Inputs, syntax.Input{Nonterm: nonterm, NoEoi: noeoi})
 			}
 		}
